@@ -448,18 +448,32 @@ def hasVirtualAnn (fs : List (Method × Option Block)) : Bool :=
 def withBlocks (blocks : Blocks) (fs : List Method) : List (Method × Option Block) :=
   fs.map (fun f => (f, blocks f.symbol))
 
-/-- all virtual methods of a container, given the blocks already looked up: `slots` are the class
-    struct's slots with their own `Struct::name` block, `methods` / `funcs` the container's methods
-    / visited functions with their blocks -/
-def vfuncsCore (n : Node) (fieldDoc : Str → Option Str) (slots : List (VSlot × Option Block))
-    (methods funcs : List (Method × Option Block)) : Except Err (List (Str × Elem)) :=
-  if hasProps n then do
-    let vs ← slots.mapM (fun v => do
+/-- `_pair_class_virtuals` for one container, given the blocks already looked up: `slots` are the
+    class struct's slots with their own `Struct::name` block, `methods` the container's methods with
+    their blocks -/
+def vfuncsPairCore (n : Node) (fieldDoc : Str → Option Str) (slots : List (VSlot × Option Block))
+    (methods : List (Method × Option Block)) : Except Err (List (Str × Elem)) :=
+  if hasProps n then
+    slots.mapM (fun v => do
       let e ← vfuncPair v.2 (fieldDoc v.1.name) methods v.1
       pure (v.1.name, e))
-    funcs.foldlM virtualStep vs
-  else if hasVirtualAnn funcs then .error .attributeError
   else .ok []
+
+/-- the `(virtual slot)` annotations of the container's functions (`_pass_read_annotations2`, in
+    walk order) applied to the virtual methods `vs` produced by the pairing -/
+def vfuncsVirtualCore (n : Node) (funcs : List (Method × Option Block)) (vs : List (Str × Elem)) :
+    Except Err (List (Str × Elem)) :=
+  if hasProps n then funcs.foldlM virtualStep vs
+  else if hasVirtualAnn funcs then .error .attributeError
+  else .ok vs
+
+/-- all virtual methods of a container: pairing, then the `(virtual)` annotations.  (In
+    `MainTransformer.transform` the pairing of EVERY class precedes the first `(virtual)`
+    annotation: `annotateAll` runs the two phases over the whole namespace one after the other.) -/
+def vfuncsCore (n : Node) (fieldDoc : Str → Option Str) (slots : List (VSlot × Option Block))
+    (methods funcs : List (Method × Option Block)) : Except Err (List (Str × Elem)) := do
+  let vs ← vfuncsPairCore n fieldDoc slots methods
+  vfuncsVirtualCore n funcs vs
 
 /-- the keys `_pair_class_virtuals` looks the slots' own blocks up with -/
 def slotBlocks (blocks : Blocks) (n : Node) : List (VSlot × Option Block) :=
@@ -656,10 +670,13 @@ def annotateAll (blocks : Blocks) (ns : List Node) : Except Err Result := do
     let e ← applyCallable true Elem.fresh (blocks f.symbol)
     pure ({ m := f, elem := e } : FuncRes))
   let bl := without blocks (ns.flatMap sectionKeys)
-  -- _pair_class_virtuals, then the (virtual) annotations of _pass_read_annotations2
-  let rs ← (ns.zip rs).mapM (fun p => do
-    let vs ← vfuncsOf bl p.1 (fieldDocOf ns rs p.1.structAnn)
-    pure { p.2 with vfuncs := vs })
+  -- _pair_class_virtuals for every class in namespace order ...
+  let paired ← (ns.zip rs).mapM (fun p =>
+    vfuncsPairCore p.1 (fieldDocOf ns rs p.1.structAnn) (slotBlocks bl p.1) (withBlocks bl p.1.methods))
+  -- ... and only then the (virtual) annotations of _pass_read_annotations2, again in namespace order
+  let rs ← ((ns.zip rs).zip paired).mapM (fun q => do
+    let vs ← vfuncsVirtualCore q.1.1 (withBlocks bl (walkFuncs q.1.1)) q.2
+    pure { q.1.2 with vfuncs := vs })
   -- _pair_property_accessors
   let (rs, fel) := pairAccessorsAll (ns.zip rs) fel
   -- _apply_annotation_rename_to
